@@ -30,6 +30,7 @@ type Ledger struct {
 	chans    map[channel.ID]*lchan
 	order    []channel.ID
 	Calls    []LedgerCall
+	SubLog   []SubRec
 	nsub     int
 
 	MinLat, MaxLat   time.Duration // latency of calls
@@ -38,9 +39,29 @@ type Ledger struct {
 	ExtendOnRefute   bool          // false: a refutation does not extend the challenge period
 }
 
+// SubRec records the creation of an event subscription.
+type SubRec struct {
+	At  time.Duration
+	Who string
+	Ch  channel.ID
+}
+
+// SubscribedBefore reports whether who subscribed to id at or before t.
+func (l *Ledger) SubscribedBefore(who string, id channel.ID, t time.Duration) bool {
+	l.mu.Lock()
+	defer l.mu.Unlock()
+	for _, r := range l.SubLog {
+		if r.Who == who && r.Ch == id && r.At <= t {
+			return true
+		}
+	}
+	return false
+}
+
 // LedgerCall is one recorded call.
 type LedgerCall struct {
 	At      time.Duration
+	Issued  time.Duration // when the caller made the call (before the simulated latency)
 	Who     string
 	Op      string
 	Ch      channel.ID
@@ -151,6 +172,17 @@ func (l *Ledger) Registered(id channel.ID) (version uint64, timeoutAt time.Durat
 		return 0, 0, false, false
 	}
 	return c.reg.version, c.timeoutAt, c.concluded, true
+}
+
+// RegisteredState returns a copy of the registered state of a channel, or nil.
+func (l *Ledger) RegisteredState(id channel.ID) *channel.State {
+	l.mu.Lock()
+	defer l.mu.Unlock()
+	c := l.chans[id]
+	if c == nil || c.reg == nil {
+		return nil
+	}
+	return c.reg.state.Clone()
 }
 
 // checkInvariant: conservation and non-negativity. Called with l.mu held.
@@ -359,6 +391,7 @@ func (p *Party) Register(ctx context.Context, req channel.AdjudicatorReq, subs [
 	l := p.L
 	id := req.Params.ID()
 	name := l.S.ChanName(id)
+	issued := l.S.Now()
 	l.S.Sleep("ledger:Register:"+p.Name+":"+name, l.MinLat, l.MaxLat)
 	if l.FailP > 0 && l.S.Chance("ledgerfail:Register:"+p.Name+":"+name, l.FailP) {
 		l.S.Count("fault.ledger_call_failure", 1)
@@ -380,7 +413,7 @@ func (p *Party) Register(ctx context.Context, req channel.AdjudicatorReq, subs [
 	if req.Tx.State != nil {
 		v = req.Tx.Version
 	}
-	l.record(LedgerCall{Who: p.Name, Op: "Register", Ch: id, Version: v, Subs: sv, Err: errStr(err)})
+	l.record(LedgerCall{Who: p.Name, Op: "Register", Ch: id, Version: v, Subs: sv, Err: errStr(err), Issued: issued})
 	l.checkInvariant("Register")
 	l.mu.Unlock()
 	l.S.Event(p.Name, "ledger:Register", fmt.Sprintf("%s v%d subs=%v err=%v", name, v, sv, err))
@@ -675,6 +708,7 @@ func (t *SimTimeout) String() string { return fmt.Sprintf("<sim timeout at %v>",
 // Subscription implements channel.AdjudicatorSubscription.
 type Subscription struct {
 	l      *Ledger
+	owner  string
 	name   string
 	id     channel.ID
 	events chan channel.AdjudicatorEvent
@@ -697,13 +731,34 @@ func (p *Party) Subscribe(_ context.Context, id channel.ID) (channel.Adjudicator
 		l.order = append(l.order, id)
 	}
 	l.nsub++
-	sub := &Subscription{l: l, name: fmt.Sprintf("%s/sub%d", p.Name, l.nsub), id: id,
+	sub := &Subscription{l: l, owner: p.Name, name: fmt.Sprintf("%s/sub%d", p.Name, l.nsub), id: id,
 		events: make(chan channel.AdjudicatorEvent, 4096), closed: make(chan struct{})}
 	c.subs = append(c.subs, sub)
+	l.SubLog = append(l.SubLog, SubRec{At: l.S.Now(), Who: p.Name, Ch: id})
 	if c.latest != nil {
 		l.schedule(sub, c.latest)
 	}
 	return sub, nil
+}
+
+// HasSub reports whether party who holds an open subscription for id.
+func (l *Ledger) HasSub(who string, id channel.ID) bool {
+	l.mu.Lock()
+	defer l.mu.Unlock()
+	c := l.chans[id]
+	if c == nil {
+		return false
+	}
+	for _, s := range c.subs {
+		if s.owner == who {
+			select {
+			case <-s.closed:
+			default:
+				return true
+			}
+		}
+	}
+	return false
 }
 
 // emit runs with l.mu held.
